@@ -105,6 +105,27 @@ Definition push_variable_lazy (n b e : N) (s : vs) : vs :=
 Definition push_params (wp : list (N * N)) (s : vs) : vs :=
   fold_left (fun s p => push (EParam (fst p) (snd p)) s) wp s.
 
+(* resetParams, cpp:289-311: from index getCurrentStackFrameIndex()-1 down to 1, stop at a context marker,
+   eActiveParam -> eParam. Never called in the unchanged tree (finding K-C01-1); the proposed repair calls
+   it when the element frame of a template instance is popped. *)
+Fixpoint deact (l : list entry) : list entry :=
+  match l with
+  | [] => []
+  | x :: r =>
+      match r with
+      | [] => l
+      | _ => match x with
+             | ECtx => l
+             | EActive n b => EParam n b :: deact r
+             | _ => x :: deact r
+             end
+      end
+  end.
+
+Definition reset_params (s : vs) : vs :=
+  let k := length (stk s) - csfi s in
+  mkV (firstn k (stk s) ++ deact (skipn k (stk s))) (csfi s) (gsfi s) (gmarked s).
+
 (* markGlobalStackFrame, cpp:316-323 *)
 Definition mark_global (s : vs) : vs :=
   push ECtx (mkV (stk s) (csfi s) (length (stk s)) true).
@@ -209,24 +230,31 @@ Definition end_children (hv : bool) (r : option (vs * list obs)) : option (vs * 
 
 (* beginExecuteChildren / endExecuteChildren (ElemTemplateElement.cpp:303-334): an element frame iff the
    element has xsl:variable / xsl:param children (eHasVariables, postConstruction 1382-1393) *)
-Fixpoint exec_ins (parent : N) (i : ins) (s : vs) {struct i} : option (vs * list obs) :=
+(* rs = true: the variant with the repair of K-C01-1 (params deactivated when a template's frame is popped) *)
+Definition end_template (rs hv : bool) (r : option (vs * list obs)) : option (vs * list obs) :=
+  match end_children hv r with
+  | Some (s2, o) => Some (if rs && hv then reset_params s2 else s2, o)
+  | None => None
+  end.
+
+Fixpoint exec_ins (rs : bool) (parent : N) (i : ins) (s : vs) {struct i} : option (vs * list obs) :=
   match i with
   | Var n b => match push_variable n b parent s with Some s' => Some (s', []) | None => None end
   | Use n => match get_variable n s with (r, s') => Some (s', [(n, r)]) end
   | Block e body =>
       let hv := has_decl [] body in
-      end_children hv (exec_seq (fun x => exec_ins e x) body (if hv then push (EFrame e) s else s))
+      end_children hv (exec_seq (fun x => exec_ins rs e x) body (if hv then push (EFrame e) s else s))
   | Invoke wp ts =>
-      match exec_seq (fun x => exec_ins parent x) ts (push_params wp (push ECtx s)) with
+      match exec_seq (fun x => exec_ins rs parent x) ts (push_params wp (push ECtx s)) with
       | Some (s1, o) => Some (pop_ctx s1, o)
       | None => None
       end
   | Tmpl e ps body =>
       let hv := has_decl ps body in
-      end_children hv
+      end_template rs hv
         (match exec_params e ps (if hv then push (EFrame e) s else s) with
          | None => None
-         | Some s0 => exec_seq (fun x => exec_ins e x) body s0
+         | Some s0 => exec_seq (fun x => exec_ins rs e x) body s0
          end)
   end.
 
@@ -237,8 +265,8 @@ Definition impl_start (globals : list (N * N)) : vs :=
   mark_global (fold_left (fun s p => push_variable_lazy (fst p) (snd p) 0%N s) globals
                          (push (EFrame 0%N) (push ECtx vs_init))).
 
-Definition impl_run (globals : list (N * N)) (root : ins) : option (list obs) :=
-  match exec_ins 0%N root (impl_start globals) with
+Definition impl_run (rs : bool) (globals : list (N * N)) (root : ins) : option (list obs) :=
+  match exec_ins rs 0%N root (impl_start globals) with
   | Some (_, o) => Some o
   | None => None
   end.
